@@ -563,6 +563,12 @@ def rule_densify(prog: Program, modules: Optional[Set[str]] = None) -> List[Inst
                 continue
             cid = f"{fi.qual}#densify:{short(n, 40)}"
             key = next((k for k in DENSIFY_EXEMPT if fi.qual.startswith(k)), None)
+            if key is None and (fi.name.startswith("_") and not fi.name.startswith("__")):
+                # a private helper split out of an exempt function shares its reason
+                sites = prog.callers_of(fi)
+                keys = {next((k for k in DENSIFY_EXEMPT if g.qual.startswith(k)), None) for g, _ in sites}
+                if sites and None not in keys and len(keys) == 1:
+                    key = keys.pop()
             has_res = any(k.arg == "resolution" for k in n.keywords) or len(n.args) >= 2 or any(k.arg is None for k in n.keywords)
             pre = any(isinstance(c, ast.Call) and call_name(c) in ("footprint", "segmented", "densify") for c in ast.walk(recv))
             if not pre:
@@ -620,6 +626,26 @@ def rule_termination(prog: Program, modules: Optional[Set[str]] = None) -> List[
                 if isinstance(e, ast.Compare) and len(e.ops) == 1 and isinstance(e.left, ast.Name) and e.left.id in (step, src_) and isinstance(e.comparators[0], ast.Constant) and e.comparators[0].value == 0:
                     if (isinstance(e.ops[0], ast.Gt) and pol) or (isinstance(e.ops[0], ast.LtE) and not pol):
                         positive = True
+            if not positive and src_ in set(fi.param_names()) and (fi.name.startswith("_") or fi.parent is not None):
+                # a private helper: the step may be known positive at every call site instead
+                sites = prog.callers_of(fi)
+                pos_names = [a.arg for a in fi.positional_params()]
+                all_ok = bool(sites)
+                for g, call in sites:
+                    a = next((k.value for k in call.keywords if k.arg == src_), None)
+                    if a is None and src_ in pos_names:
+                        i = pos_names.index(src_) - (1 if fi.is_method and not fi.is_static and isinstance(call.func, ast.Attribute) else 0)
+                        a = call.args[i] if 0 <= i < len(call.args) else None
+                    st_ = enclosing_stmt(call)
+                    if not isinstance(a, ast.Name) or st_ is None:
+                        all_ok = False
+                        break
+                    gc = Conditions(g.body)
+                    if not any(isinstance(e, ast.Compare) and len(e.ops) == 1 and isinstance(e.left, ast.Name) and e.left.id == a.id and isinstance(e.comparators[0], ast.Constant) and e.comparators[0].value == 0
+                               and ((isinstance(e.ops[0], ast.Gt) and pol) or (isinstance(e.ops[0], ast.LtE) and not pol)) for e, pol in conds_at(gc, st_)):
+                        all_ok = False
+                        break
+                positive = all_ok
             out.append(Instance("R-TERMINATION", f"{fi.qual}#while:{var}+={step}", OK if positive else BAD,
                                 f"loop advancing `{var}` by `{step}` is reached only with {src_} > 0" if positive else
                                 f"`while {short(n.test)}` advances by the caller-supplied `{src_}` without that being known positive: {src_} = 0 (or negative, or NaN) never terminates", fi.where(n)))
